@@ -50,6 +50,90 @@ CLAIMED = {
             'a length agreement on every path (R1), that every constructed result carries the hypotheses of the premises read '
             '(R2), and that no evaluator hands back a clause from its arguments on a path without test or rejecting helper (R3).',
             'logical validity of each Alethe rule shape is not decided'),
+    'C05': ('type pinning, shape guards, exact arithmetic and zero-divisor tests of the trusted arithmetic evaluators',
+            'interprocedural must-pass-through guards (call-site type pinning followed through wrappers and function-valued '
+            'arguments), call-graph taint for inexact arithmetic with a sanitiser for exactness assertions, dominance rule for divisors',
+            'For each of the 9 trust-level-0 arithmetic macros decides that every call handing a goal-derived term to nat_eval / '
+            'int_eval / real_eval / convert_to_poly is reached only on paths that pin the term to that evaluator\'s number type (T1), '
+            'that every asserted sequent is behind a shape test (T2), that no float-producing construct is reachable from the '
+            'accept decision unless rejected by an exactness assertion (T3), and that every division in the exact evaluators is '
+            'dominated by a zero test (T4). One recorded finding (const_inequality falls back to floating point).',
+            'that the evaluators compute the right number is not decided; evaluator internals are trusted at the boundary'),
+    'C06': ('nat-sensitive Z3 translation branches, side constraints, negated conclusion, solver-before-accept, SymPy verdict discipline',
+            'region rules over the branches of the translation functions, dominance / must-pass rules in the accept paths, '
+            'who-may-write rule for check_z3, handler rule for untranslatable terms',
+            'Decides that each of the 5 translation branches whose meaning differs between nat and int tests the type and builds '
+            'the guard (variables, truncated minus, forall, exists, of_nat), that recorded side constraints and only the negated '
+            'conclusion reach the solver, that acceptance is preceded by assert solve(...) unless the configuration switches are '
+            'off, that check_z3 is only assigned at module level or under __main__, that SymPy verdicts are not structural '
+            'disequalities, that untranslatable terms reject, and that SymPy only divides by non-zero constants.',
+            'faithfulness of every operator translation and the solvers themselves are not decided'),
+    'C07': ('agreement of the printer\'s bracket decisions with the grammar ladder, token agreement, printer memo key',
+            'the bracket tests of pprint.get_ast_term are read from its source and evaluated as a small model against the BNF '
+            'ladder of the Lark grammar for every (operator, side, child construct) that is type-realisable over the declared '
+            'types in library/*.json',
+            'Enumerates every (parent operator, operand side, child construct) for which the printer omits brackets and a '
+            'well-typed instance exists (545 instances) and decides from the grammar whether the text re-parses to the same '
+            'nesting (W1); decides that every operator and binder token maps to a production whose callback builds that constant '
+            '(W2) and that every setting read while building the memoised AST is in the memo key (W3). 20 recorded findings, each '
+            'reproduced with the real printer and parser.',
+            'type-annotation inference, numerals, variant names and line breaking are not decided'),
+    'C08': ('annotation preservation, one-type-per-variable recording, declared-type instantiation and the internal-variable escape guard of type inference',
+            'control-dependence (must-pass edge) rules on every type store of the inference walk, post-dominance of the restore in the printer\'s annotation search',
+            'Decides that every store to a term\'s type is control dependent on that type being absent (U1), that inference cannot '
+            'complete with leftover internal variables when forbid_internal is set and that only infer_printed_type relaxes it '
+            'and restores what it cleared (U2), that fresh variable types are recorded and looked up (U3), and that constants are '
+            'instantiated from their declared type with fresh variables for all its schematic variables (U4).',
+            'unification order, occurs check and principality are runtime properties and not decided'),
+    'C09': ('copy-on-entry, copy depth and bind-once discipline of the matcher',
+            'dominance rule (rebinding before any mutating use, nested closures included), field-coverage comparison of __copy__ '
+            'against __init__, control-dependence of binding stores on `key not in inst`',
+            'Decides that the three entry points rebind inst to a copy before any statement, nested function or callee can modify '
+            'it (N1), that Inst/TyInst copies re-create all mutable fields (N2), and that a schematic variable is bound only when '
+            'it has no binding (N3).',
+            'that the instantiation maps the pattern to the target, and completeness, are not decided'),
+    'C10': ('left-hand-side discipline of conversion fast paths, rewr_conv and oracle steps',
+            'return-shape rule over all Conv.eval overrides, must-pass edge rule in rewr_conv, argument-shape rule for oracle proof terms',
+            'Decides that every conversion fast path returns Thm(Eq(<the input>, ...)) without hypotheses (V1), that rewr_conv '
+            'returns only behind the test that the produced left side equals the input (V2), and that conversions handing an '
+            'equation to a trusted macro state it about the input term (V3).',
+            'canonicity and idempotence of normal forms are not decided'),
+    'C11': ('conservativity side conditions of definitions, writer/reader key agreement of the nine item kinds, item table',
+            'must-pass-through rule over the accept paths of Definition.parse (exception handler = rejection), dict-key '
+            'dataflow comparison between export_json/parse and get_display/parse_edit including nested records',
+            'Decides that every path on which a definition is accepted passes the seven side conditions (equality, head, variable '
+            'arguments, distinctness, free variables, type variables, no self-reference), that for each item kind the keys parse '
+            'requires are always written and nothing written is ignored, that the editor form carries what parse_edit needs, and '
+            'that item_table is exhaustive.',
+            'well-typedness of generated extensions and the generated induction / case theorems are not decided'),
+    'C12': ('no theory swap inside a build region, validity marker last, per-user forwarding, error reporting, ownership of the global theory',
+            'import-graph closure of every function-level import reachable from the loaders joined with the set of modules whose '
+            'body loads a theory; commit-last CFG rule; argument-forwarding rule; who-may-write rule',
+            'Decides that no lazy import reachable while a theory is being built can run a module body that replaces the global '
+            'theory unless it sits between a save and a post-dominating restore (L1), that nothing that can raise follows the '
+            'store of the cache timestamp (L2), that username is forwarded on every internal call (L3), that a missing limit and '
+            'an import cycle raise (L4), and that theory.thy is assigned only by the confirmed writers (L5).',
+            'equality of the resulting theory contents is not decided'),
+    'C13': ('copy isolation of proof states, snapshot immutability, total renumbering, exported step keys, argument-signature exhaustiveness',
+            'field-coverage and aliasing rule for __copy__, typestate-like rule that history snapshots reach mutating methods only '
+            'through copy (mutating set computed by closure), structural renumbering rule, dict-key and signature-set comparison',
+            'Decides that ProofState / Proof / ProofItem copies re-create every mutable part (A1), that elements of a snapshot '
+            'history reach an editing method only through copy.copy (A2), that line insertion/removal renumbers id, all citations '
+            'and nested steps of all following items and re-checks (A3), that exported steps carry the keys importers read (A4), '
+            'and that every argument signature of any registered rule has a case in parse_args (A5).',
+            'goal preservation and checkability after arbitrary edit sequences are not decided'),
+    'C14': ('search / apply / display interface agreement of the 25 proof methods',
+            'dict-key dataflow comparison between the suggestions built by search and the keys apply / display_step read, '
+            'operation-set comparison resolved through the macro registry',
+            'Decides that apply reads unconditionally only declared parameters, keys present in every suggestion, or keys it asks '
+            'for (S1), that the preview of a suggestion is computed by a tactic or macro its application also performs with the '
+            'same direction flag decoding (S2), and that display_step needs only keys every suggestion carries (S3).',
+            'that advertised subgoals equal the real ones is not decided'),
+    'C19': ('printer priority table vs parser ladder of the integration calculator',
+            'order-isomorphism check between op_priority and the BNF ladder of the Lark grammar, bracket-test direction check in Op.__str__',
+            'Decides that the 11 binary operators are ordered the same way by printer priority and grammar level, that equal '
+            'priorities share a left-recursive level, and that Op.__str__ brackets equal-priority right operands (E1, E2).',
+            'value preservation of calculation rules and normalisation is numerical and not decided'),
 }
 
 NOT_APPLICABLE = {
@@ -59,8 +143,7 @@ NOT_APPLICABLE = {
     'C20': 'soundness of wp/VC generation is semantic; the print/re-parse clause cannot be decided from tables because imperative/parser2.py has an ambiguous expression grammar resolved by LALR conflict defaults and Op.__str__ is code, not a table',
 }
 
-PENDING = {k: 'check under construction in this build phase (see DESIGN.md section 4); not yet claimed' for k in
-           ['C05','C06','C07','C08','C09','C10','C11','C12','C13','C14','C19']}  # properties whose checks are still being built are listed as not applicable until they exist
+PENDING = {}  # properties whose checks are still being built would be listed here as not applicable
 
 
 def main():
